@@ -6,6 +6,7 @@ from common import *
 MODELS = {
     "syncproto": [("sync/MC_SyncProto.tla", "sync/MC_SyncProto.cfg", "3 threads, 5-key diamond DAG, all schedules; invariants ProtoInv, AtMostOnce, NoClaimLeak; liveness Termination"),
                   ("sync/MC_SyncProto.tla", "sync/MC_SyncProtoPanic.cfg", "same with panics in two keys; waiters end with propagated panics, nothing leaks, everybody terminates")],
+    "pagealloc": [("alloc/PageAlloc.tla", "alloc/PageAlloc.cfg", "2 handles (dropped and re-created, <=2 drops), 2 ingredients, page capacity 2, 5 allocations, all schedules; IdsDistinct, UniqueWriter, PooledNotCached, SlotsInOrder")],
     "cancel": [("cancel/Cancel.tla", "cancel/Cancel.cfg", "2 reader handles x 3 requests x 2 checks, 2 writes, local cancels; WriterExclusive, NoStaleProvisional, LocalOnlyOwn, TokenResetAtOutermost; liveness WriterEventuallyProceeds")],
 }
 
@@ -16,7 +17,7 @@ def run_models(names, wd, timeout=1200):
         for (spec, cfg, what) in MODELS[name]:
             twd = os.path.join(wd, "mc_" + os.path.basename(cfg).replace(".cfg", ""))
             os.makedirs(twd, exist_ok=True)
-            res = run_tlc(os.path.join(SPECS, spec), os.path.join(SPECS, cfg), twd, workers=8, timeout=timeout, heap="6g", deque=False)
+            res = run_tlc(os.path.join(SPECS, spec), os.path.join(SPECS, cfg), twd, workers=16, timeout=timeout, heap="6g", deque=False)
             if res["rc"] != 0 or "No error has been found" not in res["out"]:
                 tail = "\n".join(l for l in res["out"].splitlines() if not l.startswith(("Parsing", "Semantic", "Linting")))[-3000:]
                 log(tail)
